@@ -269,3 +269,55 @@ def c10(tier):
                     n = stall_len(integ, phys, K, fs, le)
                     us.append(U(f"cut:{integ}:p{phys}:fs{fs}:le{int(le)}", "iosched", "cut", dict(integ=integ, phys=phys, K=K, fs=fs, lead_empty=le, len=n), timeout=600))
     return us + [twin(us[0])]
+
+
+@prop("C08", functions=["pyjelly/parse/ioutils.py:delimited_jelly_hint", "pyjelly/parse/ioutils.py:get_options_and_frames", "pyjelly/serialize/ioutils.py:write_delimited",
+                        "pyjelly/serialize/ioutils.py:write_single", "pyjelly/serialize/encode.py:encode_options"],
+      bounds={"quick": {"hint": "options message length and frame remainder symbolic in [0, 2^21), 0..2 leading empty frames, both modes; header built by a pure-Python varint model",
+                        "pair": "stream name length symbolic 0..12 (options row sweeps the 10-byte coincidences), table sizes {8,16,128}x{0,8}, generalized/rdf_star symbolic, 1-2 statements, both integrations"},
+              "thorough": {"pair": "stream name length 0..40, more table sizes"}},
+      outside="streams whose first frame starts with metadata (excluded by the property's wording); lengths >= 2^21",
+      explanation="L-HINT + H-PAIR", assumptions=["varint/tag framing model validated against google.protobuf.internal.encoder._VarintBytes on boundary lengths at every run"])
+def c08(tier):
+    us = [U("hint", "hint", "hint", {}, timeout=300)]
+    mx = 12 if tier == "quick" else 40
+    sizes = [(8, 8, 8), (16, 0, 8), (128, 8, 0)] if tier == "quick" else [(8, 8, 8), (16, 0, 8), (128, 8, 0), (10, 10, 10), (4000, 150, 32), (1290, 10, 1290)]
+    for integ in ("generic", "rdflib"):
+        for phys in (1, 2):
+            for (a, b, c) in sizes:
+                if c == 0:
+                    continue
+                us.append(U(f"pair:{integ}:p{phys}:t{a}-{b}-{c}", "hint", "pair", dict(integ=integ, phys=phys, names=a, prefixes=b, datatypes=c, maxname=mx), timeout=300))
+    return us + [twin(us[0]), twin(us[1])]
+
+
+@prop("C13", functions=["pyjelly/options.py:*", "pyjelly/serialize/encode.py:encode_options", "pyjelly/serialize/streams.py:Stream.__init__", "pyjelly/parse/decode.py:options_from_frame",
+                        "pyjelly/parse/decode.py:Decoder.validate_stream_options", "pyjelly/parse/decode.py:Decoder.__init__", "pyjelly/parse/lookup.py:LookupDecoder.__init__",
+                        "pyjelly/parse/ioutils.py:get_options_and_frames", "pyjelly/integrations/generic/parse.py:parse_jelly_flat", "pyjelly/integrations/generic/parse.py:parse_jelly_grouped",
+                        "pyjelly/integrations/rdflib/parse.py:parse_jelly_flat", "pyjelly/integrations/rdflib/parse.py:parse_jelly_grouped"],
+      bounds={"quick": {"header": "3 stream classes x 8 logical types x delimited x namespace flag x generalized x rdf_star (symbolic) ; stream names from a 5-element alphabet (empty, ASCII, non-ASCII+astral, 10 bytes, control chars); table sizes names {8,9,4095,4096} x prefixes {0,1,7,8,4096} x datatypes {0,1,32,4096}",
+                        "validation": "4x8 type matrix on construction; LookupPreset(max_names) for every integer (symbolic); LookupDecoder size for every integer > 4096 (symbolic) and {0,1,8,4095,4096}; parse-side matrix phys 0..3 x 8 logical x version 0..3 and hostile sizes {0,1,7,8,9,4095,4096,4097,65536,2^32-1}",
+                        "strictness": "8 logical types x {flat,grouped} x strict x both integrations x 3 physical types"}},
+      outside="stream names outside the alphabet (transported by protobuf, T2/T5)",
+      explanation="L-OPT")
+def c13(tier):
+    us = []
+    for integ in ("generic", "rdflib"):
+        for phys in (1, 2, 3):
+            us.append(U(f"hdr:types:{integ}:p{phys}", "opts", "hdr", dict(integ=integ, phys=phys, lt=-1, name=0, sizes=False), timeout=300))
+            if integ == "generic" or tier != "quick":
+                us.append(U(f"hdr:names:{integ}:p{phys}", "opts", "hdr", dict(integ=integ, phys=phys, lt=1 if phys == 1 else 2, name=-1, sizes=False), timeout=300))
+        for nmi in range(5 if tier != "quick" else 1):
+            us.append(U(f"hdr:sizes:{integ}:p1:n{nmi}", "opts", "hdr", dict(integ=integ, phys=1, lt=1, name=nmi, sizes=True), timeout=600))
+    us.append(U("matrix", "opts", "matrix", {}, timeout=120))
+    us.append(U("names_min", "opts", "names_min", {}, timeout=120))
+    for acc in (0, 1, 8, 4095, 4096):
+        us.append(U(f"lookup_max:{acc}", "opts", "lookup_max", dict(accept=acc), timeout=120))
+    for integ in ("generic", "rdflib"):
+        ent = ["flat", "grouped", "to_graph"]
+        us.append(U(f"parse_reject:types:{integ}", "opts", "parse_reject", dict(integ=integ, entries=ent, vary="types"), timeout=600))
+        us.append(U(f"parse_reject:sizes:{integ}", "opts", "parse_reject", dict(integ=integ, entries=ent[:1] if tier == "quick" else ent, vary="sizes"), timeout=900))
+        for phys in (1, 2, 3):
+            us.append(U(f"strict:{integ}:p{phys}", "opts", "strict", dict(integ=integ, phys=phys), timeout=300))
+    return us + [twin(us[0]), twin([u for u in us if u["fn"] == "matrix"][0]), twin([u for u in us if u["fn"] == "names_min"][0]),
+                 twin([u for u in us if u["fn"] == "lookup_max"][0]), twin([u for u in us if u["fn"] == "parse_reject"][0]), twin([u for u in us if u["fn"] == "strict"][0])]
